@@ -17,7 +17,7 @@ use icu_datagen::{DatagenDriver, DatagenProvider};
 use icu_locid::LanguageIdentifier;
 use icu_provider::DataError;
 use leptos_i18n_parser::parse_locales;
-use leptos_i18n_parser::parse_locales::error::Result;
+use leptos_i18n_parser::parse_locales::error::{Error, Result};
 use leptos_i18n_parser::parse_locales::locale::{BuildersKeys, Locale};
 
 mod datakey;
@@ -50,7 +50,16 @@ impl TranslationsInfos {
         // We don't really care for warnings, they will already be displayed by the macro
         let (locales, _, paths) = parse_locales::parse_locales(true, dir_path)?;
 
-        Ok(TranslationsInfos { locales, paths })
+        let infos = TranslationsInfos { locales, paths };
+
+        // the locales are handed to ICU4X later on, report an invalid name here like the macro does.
+        for locale in infos.get_locales() {
+            if let Err(err) = locale.parse::<LanguageIdentifier>() {
+                return Err(Error::InvalidLocale { locale, err }.into());
+            }
+        }
+
+        Ok(infos)
     }
 
     /// Parse the translations and obtain informations about them.
